@@ -30,10 +30,15 @@ theorem gen_bup_parse_nonnil (grow : Nat → Nat → Nat) (fuel : Nat) (lcp : Sl
 theorem gen_bup_parseNil_empty (grow : Nat → Nat → Nat) (fuel : Nat) (lcp : Slice → Slice → Int) (s : Gen.bucketParser)
     (blk : Gen.Block') (flags : Int) (h : blockNU s = 0) :
     bucketParser_Parse_nilable grow fuel lcp s true blk flags = Res.ok (s, blk, (0 : Int), ErrEmptyBuffer) := by
-  unfold blockNU at h
+  -- the clamp in any spelling is a minimum; the test `n == 0` is evaluated as it comes (either arm order)
+  have hmin : Min.min s.BUPConfig.BlockSize
+      ((Int.ofNat s.bucketDictionary.ParserBuffer.Data.len) - s.bucketDictionary.ParserBuffer.W) = 0 := by
+    unfold blockNU at h; rw [← ite_lt_min]; exact h
+  have hmin' : Min.min ((Int.ofNat s.bucketDictionary.ParserBuffer.Data.len) - s.bucketDictionary.ParserBuffer.W)
+      s.BUPConfig.BlockSize = 0 := by rw [Int.min_comm]; exact hmin
   unfold bucketParser_Parse_nilable
-  simp only [if_true]
-  rw [if_pos h]
+  simp only [if_true, gt_iff_lt, ge_iff_le, ite_lt_min, ite_le_min, hmin, hmin']
+  try (first | rfl | simp)
 
 theorem parseNilW_bucket_nf (s : Parser) (stale : List Byte) (bk : BucketT) (hd : s.dict = .bucket bk)
     (hn : s.blockN ≠ 0) :
@@ -102,7 +107,10 @@ theorem gen_bup_parseNil (grow : Nat → Nat → Nat) (fuel : Nat) (lcp : Slice 
   simp only [if_true] at hG
   simp only [hnG, hnG'] at hG
   rw [parseNilW_bucket_nf (ofBUPs s) (staleOfU s) (ofBucket s.bucketDictionary.bucketHash) rfl hn]
-  rw [if_neg (by omega)] at hG
+  -- `if n == 0 { return … }` or `if n != 0 { … }` with the arms swapped
+  first | rw [if_neg (by omega)] at hG | rw [if_pos (by omega)] at hG
+  -- `t := s.W + n` with the summands either way round
+  try rw [Int.add_comm (((ofBUPs s).blockN : Nat) : Int) s.bucketDictionary.ParserBuffer.W] at hG
   have hargs : ProbeW.processSegmentBW (ofBucket s.bucketDictionary.bucketHash) (ofBUPs s).buf.data (staleOfU s)
       (((ofBUPs s).buf.w : Int) - ((ofBucket s.bucketDictionary.bucketHash).inputLen : Int) + 1)
         (((ofBUPs s).buf.w + (ofBUPs s).blockN : Nat) : Int) =
